@@ -45,6 +45,10 @@ pub struct CondSpec {
     pub key: KeySpec,
     /// message atom, hex
     pub msg: String,
+    /// extra trailing arguments after (key, message): ignored by block validation,
+    /// rejected in mempool mode (STRICT_ARGS_COUNT)
+    #[serde(default)]
+    pub extra_args: u8,
 }
 
 #[derive(Serialize, Deserialize, Clone, Debug, PartialEq)]
@@ -263,6 +267,7 @@ struct DCond {
     opcode: u8,
     key: KeySpec,
     msg: Vec<u8>,
+    extra_args: u8,
 }
 
 #[derive(Clone)]
@@ -317,7 +322,7 @@ fn deliver(b: &BundleSpec, consts: &ConsensusConstants, d: &[[u8; 32]; 7]) -> De
         .map(|s| DSpend {
             parent: sha(&[b"c05parent", &s.parent_seed.to_le_bytes()]),
             amount: s.amount,
-            conds: s.conds.iter().map(|c| DCond { opcode: c.opcode, key: c.key.clone(), msg: hex::decode(&c.msg).unwrap_or_default() }).collect(),
+            conds: s.conds.iter().map(|c| DCond { opcode: c.opcode, key: c.key.clone(), msg: hex::decode(&c.msg).unwrap_or_default(), extra_args: c.extra_args }).collect(),
             quoted: s.quoted,
             fillers: s.fillers.clone(),
         })
@@ -442,8 +447,9 @@ fn deliver(b: &BundleSpec, consts: &ConsensusConstants, d: &[[u8; 32]; 7]) -> De
 
 struct Truth {
     accept: bool,
-    /// the bundle carries a condition with an unknown opcode: block validation ignores
-    /// it, mempool mode (NO_UNKNOWN_CONDS) rejects the bundle
+    /// the bundle carries a condition with an unknown opcode or an AGG_SIG condition with
+    /// extra trailing arguments: block validation ignores them, mempool mode
+    /// (NO_UNKNOWN_CONDS, STRICT_ARGS_COUNT) rejects the bundle
     unknown_cond: bool,
     why: &'static str,
     /// (key bytes, reference message) of every condition with a valid key, in order
@@ -452,7 +458,7 @@ struct Truth {
 
 /// Expected verdict, by construction, computed from the bundle as delivered.
 fn truth(dl: &Delivered, d: &[[u8; 32]; 7]) -> Truth {
-    let unknown_cond = dl.spends.iter().any(|s| s.fillers.iter().any(|f| f.1 == 1 || f.1 == 4));
+    let unknown_cond = dl.spends.iter().any(|s| s.fillers.iter().any(|f| f.1 == 1 || f.1 == 4) || s.conds.iter().any(|c| c.extra_args > 0));
     let mut pairs = vec![];
     let mut bad_key = false;
     let mut unsafe_suffix = false;
@@ -541,7 +547,11 @@ fn cond_list(a: &mut Allocator, s: &DSpend) -> NodePtr {
         let op = a.new_atom(&[c.opcode]).unwrap();
         let k = a.new_atom(&key_bytes(&c.key)).unwrap();
         let m = a.new_atom(&c.msg).unwrap();
-        conds.push(list(a, &[op, k, m]));
+        let mut items = vec![op, k, m];
+        for e in 0..c.extra_args {
+            items.push(a.new_atom(&[0x60 + e]).unwrap());
+        }
+        conds.push(list(a, &items));
     }
     for f in s.fillers.iter().filter(|f| f.0 as usize >= s.conds.len()) {
         let n = filler(a, f.1);
@@ -782,7 +792,7 @@ fn judge(party: &Party, r: &PartyResult, truths: &[Truth], case: &Case, phase: &
     let want = t.accept && !(strict && t.unknown_cond);
     if got != want {
         let path = party_name(party);
-        let why = if t.accept && !want { "unknown_condition_in_mempool_mode" } else { t.why };
+        let why = if t.accept && !want { "unknown_condition_or_extra_arguments_in_mempool_mode" } else { t.why };
         return Some((
             format!("verdict:{path}:{phase}:expected_{}_got_{}:{}", if want { "accept" } else { "reject" }, if got { "accept" } else { "reject" }, why),
             format!("bundle {i} (tampering: {tamper}): {path} returned {verdict:?}; ground truth: {} ({})", if want { "accept" } else { "reject" }, why),
@@ -1122,7 +1132,7 @@ fn gen_bundle(rng: &mut Rng, parent_counter: &mut u64, tamper_pct: u64, d: &[[u8
                 2 | 3 => KeySpec::Shifted(rng.below(3) as u8),
                 _ => KeySpec::Pool(rng.below(3) as u8),
             };
-            conds.push(CondSpec { opcode: *rng.pick(&ops), key, msg: hex::encode(gen_msg(rng, d)) });
+            conds.push(CondSpec { opcode: *rng.pick(&ops), key, msg: hex::encode(gen_msg(rng, d)), extra_args: if rng.chance(1, 15) { 1 + rng.below(2) as u8 } else { 0 } });
         }
         let amount = if rng.chance(1, 3) { shared_amount } else { *rng.pick(&AMOUNTS) };
         // sometimes the same parent as the previous spend, with a different amount
